@@ -165,6 +165,10 @@ package shell_operator
 //@ specfn ctxOff(ts map[int]task.Task, ep int, i int) int
 //@   axiom i <= 0 ==> result == 0
 //@   axiom i > 0 ==> result == ctxOff(ts, ep, i-1) + len(ctxOf(metaOf(ts[i-1], ep)))
+// total number of monitor ids of ts[0..i)
+//@ specfn idOff(ts map[int]task.Task, ep int, i int) int
+//@   axiom i <= 0 ==> result == 0
+//@   axiom i > 0 ==> result == idOff(ts, ep, i-1) + len(monitorIDsOf(metaOf(ts[i-1], ep)))
 // compaction: context j survives unless it is grouped and immediately followed by a context of the same group
 //@ pred KeepAt(cc []bindingcontext.BindingContext, j int) := cc[j].Metadata.Group == "" || j+1 >= len(cc) || cc[j+1].Metadata.Group != cc[j].Metadata.Group
 //@ specfn nKept(cc []bindingcontext.BindingContext, i int) int
@@ -214,6 +218,7 @@ package shell_operator
 //@   ensures [concat-len]   result != nil ==> len(lastCombined) == len(c0) + ctxOff(mergedSeq, ep, nMerged)
 //@   ensures [concat-head]  result != nil ==> sameseq(lastCombined[0:len(c0)], c0)
 //@   ensures [concat-merged] result != nil ==> forall(k, 0, nMerged, sameseq(lastCombined[len(c0) + ctxOff(mergedSeq, ep, k) : len(c0) + ctxOff(mergedSeq, ep, k) + len(ctxOf(metaOf(mergedSeq[k], ep)))], ctxOf(metaOf(mergedSeq[k], ep))))
+//@   ensures [monitor-ids/count] result != nil ==> len(result.MonitorIDs) == len(monitorIDsOf(metaOf(t, ep))) + idOff(mergedSeq, ep, nMerged)
 //@   ensures [compaction-len]   result != nil ==> len(result.BindingContexts) == nKept(lastCombined, len(lastCombined))
 //@   ensures [compaction-elems] result != nil ==> forall(j, 0, len(lastCombined), KeepAt(lastCombined, j) ==> result.BindingContexts[nKept(lastCombined, j)] == lastCombined[j])
 // the scan (Iterate, under the read lock)
@@ -244,6 +249,7 @@ package shell_operator
 //@     invariant len(c0) <= len(combinedContext) && sameseq(combinedContext[0:len(c0)], c0)
 //@     invariant forall(k, 0, iter(), 0 <= ctxOff(mergedSeq, ep, k) && ctxOff(mergedSeq, ep, k) + len(ctxOf(metaOf(mergedSeq[k], ep))) <= ctxOff(mergedSeq, ep, iter()))
 //@     invariant forall(k, 0, iter(), sameseq(combinedContext[len(c0) + ctxOff(mergedSeq, ep, k) : len(c0) + ctxOff(mergedSeq, ep, k) + len(ctxOf(metaOf(mergedSeq[k], ep)))], ctxOf(metaOf(mergedSeq[k], ep))))
+//@     invariant [ids-count] len(monitorIDs) == len(monitorIDsOf(metaOf(t, ep))) + idOff(mergedSeq, ep, iter()) && idOff(mergedSeq, ep, iter()) >= 0
 //@     invariant tasksFilter != nil && has(tasksFilter, head.GetId()) && tasksFilter[head.GetId()]
 //@     invariant forall(k, 0, iter(), has(tasksFilter, otherTasks[k].GetId()) && !tasksFilter[otherTasks[k].GetId()])
 //@     invariant forall(id, string, has(tasksFilter, id) ==> id == head.GetId() || exists(k, 0, iter(), id == otherTasks[k].GetId()))
